@@ -77,9 +77,13 @@ def ascii (s : String) : Bytes := s.toUTF8.toList
 def algAesCcm : Int := 10
 
 /-- §3.2.1 `info = [id, id_context / nil, alg_aead, type, L]` -/
-def info (id : Bytes) (idctx : Option Bytes) (alg : Int) (type : String) (L : Nat) : Bytes :=
+def info (id : Bytes) (idctx : Option Bytes) (alg : Int) (type : Bytes) (L : Nat) : Bytes :=
   cborArray 5 ++ cborBstr id ++ (match idctx with | some c => cborBstr c | none => cborNil) ++
-  cborInt alg ++ cborTstr (ascii type) ++ cborUint L
+  cborInt alg ++ cborTstr type ++ cborUint L
+
+def labelKey : Bytes := [0x4b, 0x65, 0x79]                                        -- "Key"
+def labelIV : Bytes := [0x49, 0x56]                                               -- "IV"
+def labelEncrypt0 : Bytes := [0x45, 0x6e, 0x63, 0x72, 0x79, 0x70, 0x74, 0x30]     -- "Encrypt0"
 
 /-- the input parameters of §3.2 (`salt = []` is the default empty salt) -/
 structure Params where
@@ -104,9 +108,9 @@ structure Ctx where
 /-- §3.2.1: Sender Key, Recipient Key (L = 16) and Common IV (L = 13) by HKDF-SHA-256 -/
 def derive (p : Params) : Ctx :=
   { sid := p.sid, rid := p.rid, idctx := p.idctx, alg := algAesCcm,
-    senderKey := hkdf p.salt p.secret (info p.sid p.idctx algAesCcm "Key" 16) 16,
-    recipientKey := hkdf p.salt p.secret (info p.rid p.idctx algAesCcm "Key" 16) 16,
-    commonIV := hkdf p.salt p.secret (info [] p.idctx algAesCcm "IV" 13) 13 }
+    senderKey := hkdf p.salt p.secret (info p.sid p.idctx algAesCcm labelKey 16) 16,
+    recipientKey := hkdf p.salt p.secret (info p.rid p.idctx algAesCcm labelKey 16) 16,
+    commonIV := hkdf p.salt p.secret (info [] p.idctx algAesCcm labelIV 13) 13 }
 
 /-! ### Partial IV, nonce (§5.2), AAD (§5.4) -/
 
@@ -133,7 +137,7 @@ def aadArray (alg : Int) (kid piv : Bytes) : Bytes :=
 
 /-- RFC 8152 §5.3 `Enc_structure = ["Encrypt0", h'', external_aad]`, external_aad = bstr .cbor aad_array -/
 def encStructure (externalAad : Bytes) : Bytes :=
-  cborArray 3 ++ cborTstr (ascii "Encrypt0") ++ cborBstr [] ++ cborBstr externalAad
+  cborArray 3 ++ cborTstr labelEncrypt0 ++ cborBstr [] ++ cborBstr externalAad
 
 def aad (alg : Int) (kid piv : Bytes) : Bytes := encStructure (aadArray alg kid piv)
 
